@@ -36,6 +36,10 @@ class Interp:
         params = [a.arg for a in tree.args.args]
         env = dict(zip(params, ([self_obj] if self_obj is not None else []) + list(args)))
         env["__globals__"] = fn.__globals__
+        defaults = tree.args.defaults  # bind parameters that were not passed to their defaults
+        for a, dflt in zip(params[len(params) - len(defaults):], defaults):
+            if a not in env:
+                env[a] = self.ev(dflt, env)
         outs = self.block(list(tree.body), env, [])
         return [(pc, (x if kind == "ret" else None)) for kind, pc, x in outs]
     def feasible(self, pc):
@@ -92,6 +96,8 @@ class Interp:
             for tt, vv in zip(t.elts, v): self.assign(tt, vv, env)
         elif isinstance(t, ast.Subscript):
             self.ev(t.value, env)[self.ev(t.slice, env)] = v
+        elif isinstance(t, ast.Attribute):
+            setattr(self.ev(t.value, env), t.attr, v)
         else: raise Unsupported(ast.dump(t)[:80])
     def binop(self, op, a, b):
         if isinstance(op, ast.Add):
@@ -166,6 +172,13 @@ class Interp:
                 v = args[0]
                 if is_sym(v): return v if v.is_int() else z3.ToInt(v)   # truncation == floor for v>=0 (asserted by caller)
                 return int(v)
+            if n == "pow":
+                b, ex = args
+                if is_sym(b) or is_sym(ex):
+                    if hasattr(self, "pow_stub"):
+                        return self.pow_stub(b, ex)
+                    raise Unsupported("symbolic pow")
+                return pow(b, ex)
             if n in ("list", "zip", "range", "enumerate", "accumulate"):
                 if n == "accumulate":
                     out = []; acc = None
